@@ -7,13 +7,13 @@ LEVEL = "exploration"
 NEED_CPP = True
 RULE = ("one case per (h, r, declaration order): spec with h distinct trivially-true `where` constraints and "
         "r computed repetitions, plus a second family whose constraints cycle through every constraint form (comparisons with and without matches, "
-        "expressions, both quantifier styles, and/or); a satisfying tree (parsed from a satisfying word) is handed to the real "
+        "expressions, both quantifier styles, and/or) and a third in which one spec object serves two searches with different extra constraints; a satisfying tree (parsed from a satisfying word) is handed to the real "
         "Evaluator.evaluate_individual and must be yielded; then fuzz() runs end to end under the online "
         "accept monitor. Non-trivial: the tree reached evaluate_individual and both constraint classes "
         "reported 1.0. Distinct by (h, r, order).")
 EXHAUSTIVE = {"quick": True, "thorough": True, "what": "all (h, r) with 0<=h,r<=N, h+r>=1 (N=12 quick, 16 thorough) x orders"}
 TIMEOUTS = {"quick": (40, 240), "thorough": (90, 1500)}
-MIN = {"quick": {"cases": 150, "nontrivial": 150, "observed": {"grid_satisfying_evals": 150, "grid_mixed_form_cases": 60}},
+MIN = {"quick": {"cases": 150, "nontrivial": 150, "observed": {"grid_satisfying_evals": 150, "grid_mixed_form_cases": 60, "grid_reuse_cases": 20}},
        "thorough": {"cases": 800, "nontrivial": 800, "observed": {"grid_satisfying_evals": 800}}}
 ASSUMPTIONS = ["satisfaction of a tree is taken from construction (grid) or from the evaluator's own class verdicts (online monitor); C02/C07 judge those verdicts",
                "an end-to-end run that finds no solution without any monitor alarm is counted, not a violation (the search is heuristic)"]
@@ -86,6 +86,10 @@ def cases(tier, seed):
             if h >= 1 and (tier == "thorough" or (h + r) % 2 == 0):
                 out.append({"key": f"h{h}-r{r}-forms", "h": h, "r": r, "order": "rules_first", "forms": True, "seed": seed,
                             "e2e": (h + r) % 4 == 0})
+            if (h + r) % 3 == 1 and (tier == "thorough" or h <= 6):
+                # one spec object used for two searches with different extra constraints: the second search must accept a
+                # tree that satisfies the spec and ITS extras, whatever the first search was asked for
+                out.append({"key": f"h{h}-r{r}-reuse", "h": h, "r": r, "order": "rules_first", "reuse": True, "seed": seed, "e2e": False})
     return out
 
 
@@ -114,10 +118,19 @@ def run_case(c):
     if tree is None:
         return {"status": "inconclusive", "reason": "satisfying word not parsed"}
     f.grammar.populate_sources(tree)
+    if c.get("reuse"):
+        # an earlier search on the same object with extras the satisfying word does NOT meet (n is 2 in that word)
+        f.init_population(extra_constraints=["int(<n>) == 1", "len(str(<start>)) < 3"], population_size=4, random_seed=c["seed"])
+        list(f.fandango.evaluator.evaluate_individual(tree))
+        extra = list(extra) + ["int(<n>) == 2"]
+        h += 1
+        stats["grid_reuse_cases"] = 1
     f.init_population(extra_constraints=extra or None, population_size=4, random_seed=c["seed"])
     ev = f.fandango.evaluator
     nh, nr = len(ev._hard_constraints), len(ev._repetition_bounds_constraints)
-    if nh != h or nr != r:
+    if c.get("reuse"):
+        pass      # decided by the observable below: the tree satisfies the spec and THIS call's extras and must be yielded
+    elif nh != h or nr != r:
         return {"status": "inconclusive", "reason": f"spec has h={nh} r={nr}, wanted {h},{r}"}
     if c.get("forms"):
         # satisfaction by construction, confirmed through every constraint's own verdict
@@ -151,7 +164,7 @@ def run_case(c):
     for v in accept.VIOLATIONS:
         violations.append({"what": f"(h={h}, r={r}, order={order}) online: " + v["what"], "mech": None, "witness": v})
     res = {"status": "violation" if violations else "ok", "violations": violations, "stats": stats,
-           "nontrivial": reached > 0, "distinct_key": [h, r, order, bool(c.get("forms"))]}
+           "nontrivial": reached > 0, "distinct_key": [c["h"], r, order, bool(c.get("forms")), bool(c.get("reuse"))]}
     if h == 1 and r in (0, 5) and order == "rules_first":
         res["sample"] = {"h": h, "r": r, "order": order, "spec": text, "word": word, "yielded": not violations,
                          "e2e_solutions": e2e_solutions}
